@@ -62,6 +62,10 @@ Definition kept (s : rstate) : Prop :=
 
 Definition is_conn (t : tstate) : bool := match t with TConn _ => true | _ => false end.
 
+Definition is_fin (t : tstate) : bool := match t with TFin => true | _ => false end.
+Definition count_fin (l : list tstate) : nat := length (filter is_fin l).
+Definition early (h : hstate) : Prop := match h with HInit | HWait _ | HJoin => True | _ => False end.
+
 Record Inv (s : rstate) : Prop := {
   i_len : length (r_att s) = length (c_addrs c);
   i_nodup : NoDup (r_open s);
@@ -70,12 +74,19 @@ Record Inv (s : rstate) : Prop := {
              exists i a, nth_error (r_att s) i = Some TFin /\ nth_error (c_addrs c) i = Some a /\ a_id a = id;
   i_none : match r_host s with
            | HInit => forall j t, nth_error (r_att s) j = Some t -> t = TNone
-           | HWait k => forall j t, k < j -> nth_error (r_att s) j = Some t -> t = TNone
+           | HWait k => k < length (c_addrs c) /\
+                        (forall j t, k < j -> nth_error (r_att s) j = Some t -> t = TNone) /\
+                        (forall j t, j <= k -> nth_error (r_att s) j = Some t -> t <> TNone)
+           | HJoin => forall j t, nth_error (r_att s) j = Some t -> t <> TNone
            | _ => True
            end;
   i_done : r_host s = HDone <-> r_result s <> None;
   i_alldone : r_host s = HDone -> all_children_done s = true;
-  i_res : forall id, r_result s = Some (ResSock id) -> r_winner s = Some id
+  i_res : forall id, r_result s = Some (ResSock id) -> r_winner s = Some id;
+  i_scope : r_scope s = true -> r_winner s <> None;
+  i_cflag : early (r_host s) -> forall j t, nth_error (r_att s) j = Some t -> t <> TNew true /\ t <> TConn true;
+  i_err : early (r_host s) -> r_winner s = None -> r_crashed s = false -> count_fin (r_att s) <= r_nerr s;
+  i_errres : forall n, r_result s = Some (ResErrs n) -> 1 <= n
 }.
 
 Lemma conn_upd_non att i t a id : i < length att -> is_conn t = false -> nth_error (c_addrs c) i = Some a ->
@@ -118,18 +129,221 @@ Proof.
   apply nth_error_In in H1. apply H in H1. discriminate.
 Qed.
 
-Lemma init_inv : c_addrs c <> [] -> Inv (init c).
+Lemma count_upd_le l : forall i t, count_fin (upd l i t) <= count_fin l + (if is_fin t then 1 else 0).
 Proof.
-  intro Hne. constructor; simpl.
+  unfold count_fin. induction l as [|x l IH]; intros [|i] t; simpl; try lia.
+  - destruct (is_fin t), (is_fin x); simpl; lia.
+  - specialize (IH i t). destruct (is_fin x); simpl; lia.
+Qed.
+
+Lemma count_all l : (forall t, In t l -> t <> TNone) -> forallb child_done l = true -> count_fin l = length l.
+Proof.
+  unfold count_fin. induction l as [|x l IH]; intros H1 H2; simpl; auto.
+  simpl in H2. apply andb_true_iff in H2. destruct H2 as [Hx Hl].
+  assert (x = TFin). { destruct x; simpl in Hx; try discriminate; auto. exfalso. apply (H1 TNone); [left|]; reflexivity. }
+  subst x. simpl. f_equal. apply IH; auto. intros t Ht. apply H1. right; exact Ht.
+Qed.
+
+Hypothesis nonempty : c_addrs c <> [].
+
+Lemma init_inv : Inv (init c).
+Proof.
+  constructor; simpl; try discriminate.
   - apply map_length.
   - constructor.
   - intro id. split; [intros []|]. intros [(j & b & f & H1 & _) | [H _]]; [|discriminate].
     rewrite nth_error_map in H1. destruct (nth_error (c_addrs c) j); discriminate.
-  - discriminate.
   - intros j t H. rewrite nth_error_map in H. destruct (nth_error (c_addrs c) j); inversion H; reflexivity.
   - split; [discriminate | intro H; exfalso; apply H; reflexivity].
-  - discriminate.
-  - discriminate.
+  - intros _ j t H. rewrite nth_error_map in H. destruct (nth_error (c_addrs c) j); inversion H; split; discriminate.
+  - intros _ _ _. unfold count_fin. clear. induction (c_addrs c); simpl; auto.
+Qed.
+
+(* ---- small facts derived from the invariant *)
+Lemma active_lt s i t : Inv s -> nth_error (r_att s) i = Some t -> i < length (r_att s).
+Proof. intros _ H. apply nth_error_Some. rewrite H. discriminate. Qed.
+
+Lemma active_result_none s i t : Inv s -> nth_error (r_att s) i = Some t -> child_done t = false -> r_result s = None.
+Proof.
+  intros I H Hd. destruct (r_result s) eqn:E; auto. exfalso.
+  assert (Hh : r_host s = HDone) by (apply (i_done s I); rewrite E; discriminate).
+  pose proof (i_alldone s I Hh) as Ha. unfold all_children_done in Ha. rewrite forallb_forall in Ha.
+  apply nth_error_In in H. apply Ha in H. congruence.
+Qed.
+
+Lemma winner_not_active s i t a : Inv s -> nth_error (r_att s) i = Some t -> is_fin t = false ->
+  nth_error (c_addrs c) i = Some a -> r_winner s <> Some (a_id a).
+Proof.
+  intros I H Hf Ha Hw. destruct (i_winner s I _ Hw) as (j & b & Hj & Hb & E).
+  assert (j = i) by (eapply id_inj; eauto). subst j. rewrite H in Hj. inversion Hj; subst. discriminate.
+Qed.
+
+Lemma not_conn_self s i t a : Inv s -> nth_error (r_att s) i = Some t -> is_conn t = false ->
+  nth_error (c_addrs c) i = Some a -> ~ connecting (r_att s) (a_id a).
+Proof.
+  intros I H Hc Ha (j & b & f & Hj & Hb & E).
+  assert (j = i) by (eapply id_inj; eauto). subst j. rewrite H in Hj. inversion Hj; subst. discriminate.
+Qed.
+
+Lemma not_open_self s i t a : Inv s -> nth_error (r_att s) i = Some t -> is_conn t = false -> is_fin t = false ->
+  nth_error (c_addrs c) i = Some a -> ~ In (a_id a) (r_open s).
+Proof.
+  intros I H Hc Hf Ha Hin. apply (i_open s I) in Hin. destruct Hin as [Hin | [Hw _]].
+  - eapply not_conn_self; eauto.
+  - eapply winner_not_active; eauto.
+Qed.
+
+(* ---- a child reaches TFin with outcome o: the common part of LChildStart (immediate outcomes), LChildSkip and
+        the four resume labels *)
+Lemma finish_inv s i t a o open' created :
+  Inv s -> nth_error (r_att s) i = Some t -> child_done t = false -> nth_error (c_addrs c) i = Some a ->
+  NoDup open' ->
+  (forall x, x <> a_id a -> (In x open' <-> In x (r_open s))) ->
+  (In (a_id a) open' <-> o = OutSock (a_id a)) ->
+  (forall id, o = OutSock id -> id = a_id a) ->
+  (forall n, o = OutErrs n -> 1 <= n) ->
+  (o = OutCancel -> ~ early (r_host s)) ->
+  Inv (child_finish s i o open' created).
+Proof.
+  intros I Ht Hact Ha Hnd Hother Hself Hsock Herrs Hcancel.
+  assert (Hlt : i < length (r_att s)) by (eapply active_lt; eauto).
+  assert (Hfin : is_fin t = false) by (destruct t; simpl in *; auto; discriminate).
+  assert (Hres : r_result s = None) by (eapply active_result_none; eauto).
+  assert (Hkept : kept s) by (unfold kept; rewrite Hres; exact Logic.I).
+  assert (Hwin : r_winner s <> Some (a_id a)) by (eapply winner_not_active; eauto).
+  assert (Hconn' : forall x, connecting (upd (r_att s) i TFin) x <-> connecting (r_att s) x /\ x <> a_id a)
+    by (intro x; apply conn_upd_non; auto).
+  assert (Hatt_other : forall j, j <> i -> nth_error (upd (r_att s) i TFin) j = nth_error (r_att s) j)
+    by (intros j Hj; apply upd_other; auto).
+  assert (Hnone :
+    match r_host s with
+    | HInit => forall j t0, nth_error (upd (r_att s) i TFin) j = Some t0 -> t0 = TNone
+    | HWait k => k < length (c_addrs c) /\
+                 (forall j t0, k < j -> nth_error (upd (r_att s) i TFin) j = Some t0 -> t0 = TNone) /\
+                 (forall j t0, j <= k -> nth_error (upd (r_att s) i TFin) j = Some t0 -> t0 <> TNone)
+    | HJoin => forall j t0, nth_error (upd (r_att s) i TFin) j = Some t0 -> t0 <> TNone
+    | _ => True
+    end).
+  { pose proof (i_none s I) as Hn. destruct (r_host s); auto.
+    - exfalso. specialize (Hn _ _ Ht). subst t. discriminate.
+    - destruct Hn as [Hk [Hn1 Hn2]]. split; [exact Hk | split].
+      + intros j t0 Hj Hnth. destruct (Nat.eq_dec j i) as [->|Nj].
+        * exfalso. specialize (Hn1 _ _ Hj Ht). subst t. discriminate.
+        * rewrite Hatt_other in Hnth by exact Nj. eapply Hn1; eauto.
+      + intros j t0 Hj Hnth. destruct (Nat.eq_dec j i) as [->|Nj].
+        * rewrite upd_same in Hnth by exact Hlt. inversion Hnth. discriminate.
+        * rewrite Hatt_other in Hnth by exact Nj. eapply Hn2; eauto.
+    - intros j t0 Hnth. destruct (Nat.eq_dec j i) as [->|Nj].
+      + rewrite upd_same in Hnth by exact Hlt. inversion Hnth. discriminate.
+      + rewrite Hatt_other in Hnth by exact Nj. eapply Hn; eauto. }
+  assert (Hcflag : early (r_host s) -> forall j t0, nth_error (upd (r_att s) i TFin) j = Some t0 ->
+                   t0 <> TNew true /\ t0 <> TConn true).
+  { intros He j t0 Hnth. destruct (Nat.eq_dec j i) as [->|Nj].
+    - rewrite upd_same in Hnth by exact Hlt. inversion Hnth. split; discriminate.
+    - rewrite Hatt_other in Hnth by exact Nj. eapply (i_cflag s I); eauto. }
+  assert (Hwinner_keep : forall id, r_winner s = Some id ->
+            exists j b, nth_error (upd (r_att s) i TFin) j = Some TFin /\ nth_error (c_addrs c) j = Some b /\ a_id b = id).
+  { intros id Hw. destruct (i_winner s I _ Hw) as (j & b & Hj & Hb & E). exists j, b.
+    split; [|auto]. destruct (Nat.eq_dec j i) as [->|Nj]; [apply upd_same; exact Hlt | rewrite Hatt_other; auto]. }
+  assert (Halldone : r_host s = HDone -> forallb child_done (upd (r_att s) i TFin) = true).
+  { intro Hh. exfalso. assert (r_result s <> None) by (apply (i_done s I); exact Hh). congruence. }
+  assert (Hcount : count_fin (upd (r_att s) i TFin) <= count_fin (r_att s) + 1)
+    by (pose proof (count_upd_le (r_att s) i TFin); simpl in *; lia).
+  unfold child_finish.
+  destruct o as [id | n | | ].
+  - (* OutSock *)
+    assert (id = a_id a) by (apply Hsock; reflexivity). subst id.
+    assert (Hin : In (a_id a) open') by (apply Hself; reflexivity).
+    destruct (r_winner s) as [w|] eqn:Hw.
+    + constructor; simpl.
+      * rewrite upd_length. apply (i_len s I).
+      * apply nodup_remove_id; exact Hnd.
+      * intro x. rewrite in_remove_id, Hconn'. unfold kept; simpl. fold (kept s).
+        destruct (Nat.eq_dec x (a_id a)) as [->|Nx].
+        -- split; [intros [_ K]; exfalso; apply K; reflexivity|].
+           intros [[_ K] | [K _]]; [exfalso; apply K; reflexivity | exfalso; apply Hwin; rewrite <- K; reflexivity].
+        -- rewrite (Hother x Nx), (i_open s I x). rewrite Hw. tauto.
+      * exact Hwinner_keep.
+      * exact Hnone.
+      * apply (i_done s I).
+      * exact Halldone.
+      * intros id K. rewrite Hres in K. discriminate.
+      * intros Hs. discriminate.
+      * exact Hcflag.
+      * intros _ K. discriminate.
+      * apply (i_errres s I).
+    + constructor; simpl.
+      * rewrite upd_length. apply (i_len s I).
+      * exact Hnd.
+      * intro x. rewrite Hconn'. unfold kept; simpl. fold (kept s).
+        destruct (Nat.eq_dec x (a_id a)) as [->|Nx].
+        -- split; [intros _; right; split; [reflexivity | exact Hkept] | intros _; exact Hin].
+        -- rewrite (Hother x Nx), (i_open s I x). rewrite Hw.
+           split; [intros [K | [K _]]; [left; split; auto | discriminate]
+                  | intros [[K _] | [K _]]; [left; exact K | exfalso; apply Nx; inversion K; reflexivity]].
+      * intros id K. inversion K; subst id. exists i, a. split; [apply upd_same; exact Hlt | auto].
+      * exact Hnone.
+      * apply (i_done s I).
+      * exact Halldone.
+      * intros id K. rewrite Hres in K. discriminate.
+      * discriminate.
+      * exact Hcflag.
+      * intros _ K. discriminate.
+      * apply (i_errres s I).
+  - (* OutErrs *)
+    assert (Hnin : ~ In (a_id a) open') by (rewrite Hself; discriminate).
+    constructor; simpl.
+    + rewrite upd_length. apply (i_len s I).
+    + exact Hnd.
+    + intro x. rewrite Hconn'. unfold kept; simpl. fold (kept s).
+      destruct (Nat.eq_dec x (a_id a)) as [->|Nx].
+      * split; [intro K; exfalso; auto | intros [[_ K] | [K _]]; exfalso; [apply K; reflexivity | exact (Hwin K)]].
+      * rewrite (Hother x Nx), (i_open s I x). tauto.
+    + exact Hwinner_keep.
+    + exact Hnone.
+    + apply (i_done s I).
+    + exact Halldone.
+    + apply (i_res s I).
+    + apply (i_scope s I).
+    + exact Hcflag.
+    + intros He Hw Hc. pose proof (i_err s I He Hw Hc). specialize (Herrs n eq_refl). lia.
+    + apply (i_errres s I).
+  - (* OutCancel *)
+    assert (Hnin : ~ In (a_id a) open') by (rewrite Hself; discriminate).
+    constructor; simpl.
+    + rewrite upd_length. apply (i_len s I).
+    + exact Hnd.
+    + intro x. rewrite Hconn'. unfold kept; simpl. fold (kept s).
+      destruct (Nat.eq_dec x (a_id a)) as [->|Nx].
+      * split; [intro K; exfalso; auto | intros [[_ K] | [K _]]; exfalso; [apply K; reflexivity | exact (Hwin K)]].
+      * rewrite (Hother x Nx), (i_open s I x). tauto.
+    + exact Hwinner_keep.
+    + exact Hnone.
+    + apply (i_done s I).
+    + exact Halldone.
+    + apply (i_res s I).
+    + apply (i_scope s I).
+    + exact Hcflag.
+    + intros He. exfalso. apply Hcancel; auto.
+    + apply (i_errres s I).
+  - (* OutCrash *)
+    assert (Hnin : ~ In (a_id a) open') by (rewrite Hself; discriminate).
+    constructor; simpl.
+    + rewrite upd_length. apply (i_len s I).
+    + exact Hnd.
+    + intro x. rewrite Hconn'. unfold kept; simpl. fold (kept s).
+      destruct (Nat.eq_dec x (a_id a)) as [->|Nx].
+      * split; [intro K; exfalso; auto | intros [[_ K] | [K _]]; exfalso; [apply K; reflexivity | exact (Hwin K)]].
+      * rewrite (Hother x Nx), (i_open s I x). tauto.
+    + exact Hwinner_keep.
+    + exact Hnone.
+    + apply (i_done s I).
+    + exact Halldone.
+    + apply (i_res s I).
+    + apply (i_scope s I).
+    + exact Hcflag.
+    + intros _ _ K. discriminate.
+    + apply (i_errres s I).
 Qed.
 
 End Race.
